@@ -319,4 +319,91 @@ theorem c02lift_mem_otherFlagsAll {fs : List Nat} {g : Nat} (hg : g ∈ allFlags
   simp only [Bool.not_eq_true', List.contains_eq_mem, decide_eq_false_iff_not]
   exact hn
 
+theorem c02lift_localToB_of {G : List Nat} {cs : CharSpec} {ts : List Tok} (h : LocalTo G cs ts) :
+    localToB G cs ts = true := by
+  obtain ⟨h1, h2, h3, h4, h5, h6⟩ := h
+  unfold localToB
+  simp only [Bool.and_eq_true, Bool.or_eq_true, decide_eq_true_eq]
+  exact ⟨⟨⟨⟨⟨h1, h2⟩, h3⟩, h4⟩, h5⟩, h6⟩
+
+theorem c02lift_allBlocksOf_mono (cs : CharSpec) (input : List Char) (P Q : List Tok → Bool)
+    (h : ∀ b, P b = true → Q b = true) (hp : AllBlocksOf cs input P = true) : AllBlocksOf cs input Q = true := by
+  unfold AllBlocksOf at *
+  rw [List.all_eq_true] at *
+  exact fun b hb => h b (hp b hb)
+
+theorem c02lift_allBlocksOf_true (cs : CharSpec) (input : List Char) : AllBlocksOf cs input (fun _ => true) = true := by
+  unfold AllBlocksOf
+  simp
+
+/-! ### the event clauses of the single analysis flags -/
+
+/-- INLINE_QUANTITIES: a step text is not empty and the finder finds nothing in it -/
+def inlineEvCore (α : Type) [Arith α] (env : Env) : Ev α → Bool
+  | .text t => textCoreX α env t
+  | _ => true
+
+/-- ADVANCED_UNITS: a timer has a numeric value and a time unit (or no unit, or no quantity); an
+    ingredient has no quantity, or is an intermediate reference, or — when no `>>` key of the event
+    list is `[…]` (`nb`) — has no `&` modifier -/
+def advEvCore (env : Env) (nb : Bool) : Ev α → Bool
+  | .timer t => timerCoreX env t.val
+  | .ingredient i => i.val.quantity.isNone || i.val.inter.isSome || (nb && !i.val.modifiers.val.contains Modifiers.REF)
+  | _ => true
+
+section clauses
+variable {G : List Nat} (env : Env) (nb : Bool) (ev : Ev α)
+
+theorem c02lift_evLocalB_all (h1 : Gen.EXT_MODES ∈ G) (h2 : Gen.EXT_INLINE_QUANTITIES ∈ G)
+    (h3 : Gen.EXT_ADVANCED_UNITS ∈ G) : evLocalB α G env nb ev = true := by
+  cases ev <;> simp [evLocalB, h1, h2, h3]
+
+theorem c02lift_evLocalB_modes (h2 : Gen.EXT_INLINE_QUANTITIES ∈ G) (h3 : Gen.EXT_ADVANCED_UNITS ∈ G)
+    (h : evNoBracket env.cs ev = true) : evLocalB α G env nb ev = true := by
+  cases ev <;> simp_all [evLocalB, evNoBracket]
+
+theorem c02lift_evLocalB_inline (h1 : Gen.EXT_MODES ∈ G) (h3 : Gen.EXT_ADVANCED_UNITS ∈ G)
+    (h : inlineEvCore α env ev = true) : evLocalB α G env nb ev = true := by
+  cases ev <;> simp_all [evLocalB, inlineEvCore]
+
+theorem c02lift_evLocalB_adv (h1 : Gen.EXT_MODES ∈ G) (h2 : Gen.EXT_INLINE_QUANTITIES ∈ G)
+    (h : advEvCore env nb ev = true) : evLocalB α G env nb ev = true := by
+  cases ev <;> simp_all [evLocalB, advEvCore]
+  rcases h with (h | h) | h
+  · exact Or.inl (Or.inl (Or.inr h))
+  · exact Or.inl (Or.inr h)
+  · exact Or.inr h
+
+end clauses
+
+/-- an event list satisfies the clauses as soon as every event does (with `nb` computed from the list) -/
+theorem c02lift_evsLocalB_of (G : List Nat) (env : Env) (evs : List (Ev α))
+    (h : ∀ ev ∈ evs, evLocalB α G env (evs.all (evNoBracket env.cs)) ev = true) : evsLocalB α G env evs = true := by
+  unfold evsLocalB
+  rw [List.all_eq_true]
+  exact h
+
+/-! ### `Extensions::empty()` -/
+
+/-- the flags that are off in `e` -/
+def offFlags (e : Ext) : List Nat := allFlags.filter (fun g => !e.has g)
+
+theorem c02lift_empty_has : ∀ g ∈ allFlags, (⟨0⟩ : Ext).has g = false := by decide
+
+theorem c02lift_agree_off (e : Ext) : AgreeOn (offFlags e) ⟨0⟩ e := by
+  intro g hg
+  unfold offFlags at hg
+  rw [List.mem_filter] at hg
+  rw [c02lift_empty_has g hg.1]
+  have := hg.2
+  simp only [Bool.not_eq_true'] at this
+  exact this.symm
+
+theorem c02lift_agree_single (f : Nat) (hf : f ∈ allFlags) (e : Ext) (hoff : e.has f = false) :
+    AgreeOn [f] ⟨0⟩ e := by
+  intro g hg
+  simp only [List.mem_singleton] at hg
+  subst hg
+  rw [c02lift_empty_has g hf, hoff]
+
 end Cook
